@@ -151,6 +151,10 @@ func (s *jwtSigner) Hash() []byte {
 	jwk := s.jwk
 	s.mut.RUnlock()
 
+	return s.hashOf(jwk)
+}
+
+func (s *jwtSigner) hashOf(jwk jose.JSONWebKey) []byte {
 	hash := sha256.New()
 	hash.Write(stringx.ToBytes(jwk.KeyID))
 	hash.Write(stringx.ToBytes(jwk.Algorithm))
@@ -160,6 +164,15 @@ func (s *jwtSigner) Hash() []byte {
 }
 
 func (s *jwtSigner) Sign(sub string, ttl time.Duration, customClaims map[string]any) (string, error) {
+	token, _, err := s.sign(sub, ttl, customClaims)
+
+	return token, err
+}
+
+// sign does the same as Sign, but returns in addition the hash (see Hash) of the key, the token has been
+// actually signed with. That key may differ from the one returned by a previous call to Hash if the key
+// store has been reloaded in between.
+func (s *jwtSigner) sign(sub string, ttl time.Duration, customClaims map[string]any) (string, []byte, error) {
 	s.mut.RLock()
 	jwk := s.jwk
 	key := s.key
@@ -172,7 +185,7 @@ func (s *jwtSigner) Sign(sub string, ttl time.Duration, customClaims map[string]
 			WithHeader("kid", jwk.KeyID).
 			WithHeader("alg", jwk.Algorithm))
 	if err != nil {
-		return "", errorchain.NewWithMessage(heimdall.ErrInternal, "failed to create JWT signer").CausedBy(err)
+		return "", nil, errorchain.NewWithMessage(heimdall.ErrInternal, "failed to create JWT signer").CausedBy(err)
 	}
 
 	claims := make(map[string]any)
@@ -191,10 +204,10 @@ func (s *jwtSigner) Sign(sub string, ttl time.Duration, customClaims map[string]
 
 	rawJwt, err := builder.Serialize()
 	if err != nil {
-		return "", errorchain.NewWithMessage(heimdall.ErrInternal, "failed to sign claims").CausedBy(err)
+		return "", nil, errorchain.NewWithMessage(heimdall.ErrInternal, "failed to sign claims").CausedBy(err)
 	}
 
-	return rawJwt, nil
+	return rawJwt, s.hashOf(jwk), nil
 }
 
 func (s *jwtSigner) Keys() []jose.JSONWebKey {
